@@ -417,3 +417,47 @@ Proof.
   - rewrite (tokens_of_join_semi sep its Hs1). subst its. rewrite map_tokens_fmtx by exact Hall. reflexivity.
   - apply entry_join; [exact Hs2 | exact Hs3 | subst its; apply entry_map_fmtx, Hall].
 Qed.
+
+(* ---- the formatter parenthesises everything Michelson puts in argument position ---- *)
+Lemma mem_name_In n l : mem_name n l = true -> In n l.
+Proof.
+  unfold mem_name. intro H. apply existsb_exists in H. destruct H as (x & Hx & E).
+  apply bytes_eqb_spec in E. subst. exact Hx.
+Qed.
+
+Lemma arg_applications_framed n b : mem_name n arg_applications = true -> is_framed n b = true.
+Proof.
+  intro H. apply mem_name_In in H. unfold arg_applications in H. simpl in H.
+  repeat (destruct H as [<-|H]; [reflexivity|]). contradiction.
+Qed.
+
+Lemma simple_types_framed n : mem_name n simple_types = true -> is_framed n true = true.
+Proof.
+  intro H. apply mem_name_In in H. unfold simple_types in H. simpl in H.
+  repeat (destruct H as [<-|H]; [reflexivity|]). contradiction.
+Qed.
+
+Lemma arg_shaped_framed p : arg_shaped p = true -> arg_framed p = true.
+Proof.
+  destruct p as [r|r|r|n annots args|items]; simpl; try reflexivity.
+  intro H. destruct (nonempty annots || nonempty args) eqn:Ex; [|reflexivity]. simpl in *.
+  apply orb_true_iff in H. destruct H as [H|H].
+  - apply arg_applications_framed, H.
+  - apply andb_true_iff in H. destruct H as [Hs Ha]. apply negb_true_iff in Ha.
+    rewrite Ha, orb_false_r in Ex. rewrite Ex. apply simple_types_framed, Hs.
+Qed.
+
+Lemma shaped_framed : forall p, shaped_ok p = true -> framed_ok p = true.
+Proof.
+  induction p as [r|r|r|n annots args IH|items IH] using pnode_ind'; simpl; intro H; try reflexivity.
+  - rewrite forallb_forall in *. rewrite Forall_forall in IH. intros a Ha.
+    specialize (H a Ha). apply andb_true_iff in H. destruct H as [H1 H2].
+    rewrite (IH a Ha H1), (arg_shaped_framed a H2). reflexivity.
+  - rewrite forallb_forall in *. rewrite Forall_forall in IH. intros a Ha. apply IH; auto.
+Qed.
+
+Lemma michelson_expr_wf e : michelson_expr e = true -> wf_expr e = true.
+Proof.
+  unfold michelson_expr, wf_expr. intro H. apply andb_true_iff in H. destruct H as [H Hr].
+  apply andb_true_iff in H. destruct H as [Ht Hs]. rewrite Ht, (shaped_framed _ Hs), Hr. reflexivity.
+Qed.
